@@ -29,17 +29,19 @@ static const char *const PROGS[] = {
 	// re-entry inside the last leaver's window with the re-entering thread blocked there: a forgotten waiter of the new generation shows at k<=1
 	"1; n l | E T L | W",
 	"1; l | E T L | W",
+	// a group member that starts work in another group (the implied leave of each group_async must go to its own group)
+	"x", "x | W", "x n | g", "x x",
 	0
 };
 
 #define MAXOPS 6
 typedef struct { int init, nthr, nops[3]; char ops[3][MAXOPS]; } gprog;
 static gprog g_p;
-static dispatch_group_t g_grp;
-static dispatch_queue_t g_sq, g_gq;
+static dispatch_group_t g_grp, g_grp2;
+static dispatch_queue_t g_sq, g_gq, g_sq2;
 static int g_cb_done, g_cb_expected;
 
-enum { EV_ENTER_RET = EV_USER, EV_LEAVE_CALL, EV_WAIT_CALL, EV_WAIT_RET, EV_NOTIFY_CALL, EV_NOTIFY_START, EV_GASYNC_RET, EV_GITEM_END };
+enum { EV_ENTER_RET = EV_USER, EV_LEAVE_CALL, EV_WAIT_CALL, EV_WAIT_RET, EV_NOTIFY_CALL, EV_NOTIFY_START, EV_GASYNC_RET, EV_GITEM_END, EV_INNER_START, EV_INNER_END, EV_WAIT2_RET };
 
 static int parse(const char *s, gprog *p)
 {
@@ -59,6 +61,16 @@ static int parse(const char *s, gprog *p)
 
 static void notify_fn(void *ctx) { vx_ev(EV_NOTIFY_START, (int)(intptr_t)ctx, 0); vx_point(); g_cb_done++; }
 static void gitem_fn(void *ctx) { vx_ev(EV_START, (int)(intptr_t)ctx, 0); vx_point(); vx_ev(EV_GITEM_END, (int)(intptr_t)ctx, 0); g_cb_done++; }
+static void inner_fn(void *ctx) { vx_ev(EV_INNER_START, (int)(intptr_t)ctx, 0); vx_sleep_ns(1 * MS); vx_ev(EV_INNER_END, (int)(intptr_t)ctx, 0); g_cb_done++; }
+static void outer_fn(void *ctx)
+{
+	// a member of the group that itself starts work in ANOTHER group: each group must get exactly its own implied leave
+	vx_ev(EV_START, (int)(intptr_t)ctx, 0);
+	dispatch_group_async_f(g_grp2, g_sq2, ctx, inner_fn);
+	vx_point();
+	vx_ev(EV_GITEM_END, (int)(intptr_t)ctx, 0);
+	g_cb_done++;
+}
 static void warm_fn(void *ctx) { *(int *)ctx = 1; }
 
 static void actor(void *arg)
@@ -73,6 +85,9 @@ static void actor(void *arg)
 		case 'L': case 'l': vx_ev(EV_LEAVE_CALL, id, 0); dispatch_group_leave(g_grp); break;
 		case 'g': case 'G':
 			dispatch_group_async_f(g_grp, o == 'g' ? g_sq : g_gq, ctx, gitem_fn);
+			vx_ev(EV_GASYNC_RET, id, 0); break;
+		case 'x':
+			dispatch_group_async_f(g_grp, g_sq, ctx, outer_fn);
 			vx_ev(EV_GASYNC_RET, id, 0); break;
 		case 'n':
 			vx_ev(EV_NOTIFY_CALL, id, 0);
@@ -91,7 +106,7 @@ static void actor(void *arg)
 static int nvariants(void) { int n = 0; while (PROGS[n]) n++; return n; }
 static void describe(int v, char *b, size_t n)
 {
-	snprintf(b, n, "group program '%s' (k;=initial enters, E/L enter/leave, l=leave of an initial enter, g/G=group_async serial/global, n=notify, W/T/N=wait forever/1ms/now)", PROGS[v]);
+	snprintf(b, n, "group program '%s' (k;=initial enters, E/L enter/leave, l=leave of an initial enter, g/G=group_async serial/global, n=notify, W/T/N=wait forever/1ms/now, x=group_async of an item that group_asyncs a 1 ms item into a second group)", PROGS[v]);
 }
 
 static void run(int v)
@@ -102,13 +117,16 @@ static void run(int v)
 	g_sq = dispatch_queue_create("vx.grp", NULL);
 	g_gq = dispatch_get_global_queue(0, 0);
 	g_cb_done = g_cb_expected = 0;
-	int needq = 0, needg = 0;
+	int needq = 0, needg = 0, has_x = 0;
+	g_grp2 = dispatch_group_create(); g_sq2 = dispatch_queue_create("vx.grp2", NULL);
 	for (int t = 0; t < g_p.nthr; t++) for (int k = 0; k < g_p.nops[t]; k++) {
 		char o = g_p.ops[t][k];
 		if (o == 'g' || o == 'G' || o == 'n') { g_cb_expected++; needq = 1; }
+		if (o == 'x') { g_cb_expected += 2; needq = 1; has_x = 1; }
 		if (o == 'G') needg = 1;
 	}
 	if (needq) { int d = 0; dispatch_async_f(g_sq, &d, warm_fn); int *a[2] = { &d, (int *)(intptr_t)1 }; vx_wait_until(pred_int_ge, a); }
+	if (has_x) { int d = 0; dispatch_async_f(g_sq2, &d, warm_fn); int *a[2] = { &d, (int *)(intptr_t)1 }; vx_wait_until(pred_int_ge, a); }
 	if (needg) { int d = 0; dispatch_async_f(g_gq, &d, warm_fn); int *a[2] = { &d, (int *)(intptr_t)1 }; vx_wait_until(pred_int_ge, a); }
 	for (int i = 0; i < g_p.init; i++) { dispatch_group_enter(g_grp); vx_ev(EV_ENTER_RET, 900 + i, 0); }
 	int th[3];
@@ -116,6 +134,15 @@ static void run(int v)
 	for (int t = 1; t < g_p.nthr; t++) th[t] = vx_thread(actor, (void *)(intptr_t)t);
 	actor((void *)0);
 	for (int t = 1; t < g_p.nthr; t++) vx_join(th[t]);
+	if (has_x) {
+		// once the first group is empty every outer item has run, so every inner item has been entered into the second group:
+		// from here on a wait on the second group may return only after the inner items have finished
+		vx_ev(EV_WAIT_CALL, 997, 'W');
+		intptr_t r1 = dispatch_group_wait(g_grp, DISPATCH_TIME_FOREVER);
+		vx_ev(EV_WAIT_RET, 997, r1 != 0);
+		intptr_t r2 = dispatch_group_wait(g_grp2, DISPATCH_TIME_FOREVER);
+		vx_ev(EV_WAIT2_RET, 0, r2 != 0);
+	}
 	int *a[2] = { &g_cb_done, (int *)(intptr_t)g_cb_expected };
 	vx_wait_until(pred_int_ge, a);
 	vx_focus_end();
@@ -160,6 +187,11 @@ static int check(int v, const vx_log *l, char *msg, size_t len)
 							(unsigned long long)(e->vt - l->ev[c].vt), (unsigned long long)need);
 				if (e->id == 999) FAILF(msg, len, "group is not empty after every enter was matched by a leave (final wait(NOW) failed)");
 			}
+		}
+		if (e->kind == EV_WAIT2_RET) {
+			for (uint32_t j = i + 1; j < l->n; j++) if (l->ev[j].kind == EV_INNER_END || l->ev[j].kind == EV_INNER_START)
+				FAILF(msg, len, "dispatch_group_wait on the second group returned (event #%u) while its group_async item had not finished (event #%u)", i, j);
+			if (e->arg) FAILF(msg, len, "dispatch_group_wait(FOREVER) on the second group returned non-zero");
 		}
 		if (e->kind == EV_NOTIFY_START) {
 			int c = ev_first(l, EV_NOTIFY_CALL, e->id);
